@@ -950,6 +950,32 @@ func init() {
 				}
 				return b
 			}
+			// every numeric field of the tile format with a varint that never ends within ten bytes (or just does), framed
+			// correctly as tile > layer > feature / value
+			wrap := func(fieldNo uint64, body []byte) []byte {
+				return append(append(varint(fieldNo<<3|2), varint(uint64(len(body)))...), body...)
+			}
+			for _, long := range [][]byte{
+				{0xff, 0xff, 0xff, 0xff, 0xff, 0xff, 0xff, 0xff, 0xff, 0xff, 0x01},
+				{0x80, 0x80, 0x80, 0x80, 0x80, 0x80, 0x80, 0x80, 0x80, 0x80, 0x80, 0x00},
+				{0xff, 0xff, 0xff, 0xff, 0xff, 0xff, 0xff, 0xff, 0xff, 0x01},
+				{0xff, 0xff, 0xff, 0xff, 0xff, 0xff, 0xff, 0xff, 0xff, 0x7f},
+				{0xff, 0xff, 0xff, 0xff, 0xff, 0xff, 0xff, 0xff, 0xff, 0xff},
+			} {
+				for _, ff := range []uint64{1, 3} { // feature: id, type (varints); tags and geometry (packed varints)
+					c05Raw(c, "mvt(wire)", wrap(3, wrap(2, append(varint(ff<<3|0), long...))), c05MvtDecs)
+					c05Raw(c, "mvt(wire)", wrap(3, append(wrap(1, []byte("l")), wrap(2, append(append(varint(ff<<3|0), long...), varint(3<<3|0)[0], 1))...)), c05MvtDecs)
+				}
+				for _, ff := range []uint64{2, 4} {
+					c05Raw(c, "mvt(wire)", wrap(3, wrap(2, wrap(ff, long))), c05MvtDecs)
+				}
+				for _, lf := range []uint64{15, 5} { // layer: version, extent
+					c05Raw(c, "mvt(wire)", wrap(3, append(varint(lf<<3|0), long...)), c05MvtDecs)
+				}
+				for _, vf := range []uint64{4, 5, 6, 7} { // value: int, uint, sint, bool
+					c05Raw(c, "mvt(wire)", wrap(3, wrap(4, append(varint(vf<<3|0), long...))), c05MvtDecs)
+				}
+			}
 			for i := 0; i < c.pick(4000, 60000); i++ {
 				var b []byte
 				for f := 0; f < 1+c.rng.Intn(4); f++ {
